@@ -19,9 +19,22 @@ func (e *Exec) step(fr *frame, instr ssa.Instruction, reach Term, st *State) Ter
 	c := e.c
 	switch x := instr.(type) {
 	case *ssa.DebugRef:
-		if !x.IsAddr {
+		if x.IsAddr {
+			// a variable that lives in memory (its address is taken): specs read it through the address
 			if id := x.Object(); id != nil {
 				if _, ok := id.(*types.Var); ok {
+					if v, ok := st.env[x.X]; ok && v.Addr != nil {
+						v.Deref = true
+						st.names[id.Name()] = v
+					}
+				}
+			}
+		}
+		if !x.IsAddr {
+			if id := x.Object(); id != nil {
+				if prev, ok := st.names[id.Name()]; ok && prev.Deref {
+					// the variable lives in memory: keep reading it through its address
+				} else if _, ok := id.(*types.Var); ok {
 					if v, ok := st.env[x.X]; ok {
 						st.names[id.Name()] = v
 					} else if cv, ok := x.X.(*ssa.Const); ok {
@@ -38,11 +51,22 @@ func (e *Exec) step(fr *frame, instr ssa.Instruction, reach Term, st *State) Ter
 			a := &Addr{Kind: RHeap, Ref: ref, Key: typeKey(pt), Typ: pt}
 			c.storeAt(st.cells, a, c.zeroVal(pt))
 			st.env[x] = Val{Typ: x.Type(), L: []Term{ref}, Addr: a}
+			if nm := x.Comment; nm != "" && nm != "varargs" && nm != "complit" && nm != "slicelit" && nm != "makeslice" && nm != "new" {
+				// a source variable that lives in memory: specs read it through this address
+				nv := st.env[x]
+				nv.Deref = true
+				st.names[nm] = nv
+			}
 		} else {
 			key := fmt.Sprintf("l:%s.%s", sanitize(e.fnShort(x.Parent())), x.Name())
 			a := &Addr{Kind: RLocal, Key: key, Typ: pt}
 			c.storeAt(st.cells, a, c.zeroVal(pt))
 			st.env[x] = Val{Typ: x.Type(), L: []Term{tNil}, Addr: a}
+			if nm := x.Comment; nm != "" && nm != "varargs" && nm != "complit" && nm != "slicelit" && nm != "makeslice" && nm != "new" {
+				nv := st.env[x]
+				nv.Deref = true
+				st.names[nm] = nv
+			}
 		}
 	case *ssa.FieldAddr:
 		base := e.value(st, x.X)
@@ -351,6 +375,10 @@ func (e *Exec) unop(x *ssa.UnOp, st *State, reach Term) (Val, Term) {
 		out.Typ = x.Type()
 		if a.Kind == RGlobal && len(a.Path) == 0 {
 			out.Global = a.Key
+		}
+		if _, isSl := x.Type().Underlying().(*types.Slice); isSl && len(out.L) == 4 {
+			// type invariant of Go slices (lengths are bounded by the address space; 2^40 elements here)
+			c.assume(c.implies(reach, c.and(c.app(sortBool, "bvule", out.L[2], out.L[3]), c.app(sortBool, "bvult", out.L[3], bvLitI(64, 1<<40)), c.app(sortBool, "bvult", out.L[1], bvLitI(64, 1<<40)))), "slice loaded from memory is well-formed")
 		}
 		return out, reach
 	case token.NOT:
